@@ -17,8 +17,9 @@ MANIFEST = dict(
          'a x + b (a > 0) map all reported values and leave all indices unchanged (unbounded, via a class of value maps that preserve signs of '
          'differences and comparisons of absolute differences, applied to turning-point extraction and the item-level stack machine); the FKM '
          'detector is negation- and positive-scale-equivariant (unbounded); inserting non-reversal samples changes no reported value of the '
-         'four-point and FKM detectors and no reversal value (unbounded); three-point detector: negation / six affine maps / insertion proved '
-         'bounded ({0..3}, length <= 7 resp. 6, vm_compute); NaN dropping: a literal model of clean_nans + the index-correction loop reports the '
+         'four-point and FKM detectors and no reversal value (unbounded); three-point detector: negation and every positive affine map (unbounded, '
+         'position-level proof with range and front-order invariants), insertion of non-reversal samples proved '
+         'bounded ({0..3}, length <= 6, vm_compute); NaN dropping: a literal model of clean_nans + the index-correction loop reports the '
          'values of the NaN-free signal and indices that address, in the original signal, non-NaN samples holding the value (nan_drop_index, '
          'unbounded).  Index tracking under refinement, NaN handling inside the detectors and Series handling are decided by '
          'relations on the implementation on every run.',
